@@ -575,7 +575,7 @@ pub fn validate_diag_locations(p: &Project, out: &CompileOut, unparseable: &dyn 
 }
 
 impl C04 {
-    fn gen_case(&self, s: &mut Src) -> C04Case {
+    pub fn gen_case(&self, s: &mut Src) -> C04Case {
         let corp = corpus();
         let sf: Vec<String> = match s.below(3) {
             0 => vec![],
